@@ -98,6 +98,10 @@ def run_case(case: dict) -> CaseResult:
                         r = removers.get(do[1])
                         if r is not None:
                             r()
+                    elif do == "close":
+                        # the subscriber closes the connection from inside its callback (public API, runs synchronously
+                        # up to its first await = through the forced close)
+                        env.spawn(f"cbclose.{cid}.{counts[cid]}", s.cli.disconnect(force=True))
                     elif do[0] == "sub":
                         nid = f"{cid}.{counts[cid]}"
                         subscribe(nid, do[1], do[2] if len(do) > 2 else [])
@@ -151,7 +155,13 @@ def run_case(case: dict) -> CaseResult:
                         effects.append((cid, n, act["do"]))
             for cid, n, do in effects:
                 state["reentrant"] = True
-                if do == "unsub_self":
+                if do == "close":
+                    # every subscriber of the snapshot still gets THIS message; nothing is delivered afterwards
+                    if not state["closed_expected"]:
+                        state["closed_expected"] = "forced-in-callback"
+                        expected_writes.append(5)
+                        classes.add("closed_inside_callback")
+                elif do == "unsub_self":
                     registry.pop(cid, None)
                 elif do[0] == "unsub":
                     registry.pop(do[1], None)
@@ -274,6 +284,11 @@ def run_case(case: dict) -> CaseResult:
         fe = s.conn._fatal_exception
         if type(fe).__name__ != "ProtocolAPIError":
             res.violations.append(Violation(ID, f"c12:undecodable:error-class:{type(fe).__name__}", ""))
+    if ce == "forced-in-callback":
+        if after != "CLOSED":
+            res.violations.append(Violation(ID, f"c12:forced-close-in-callback:state:{after}", ""))
+        if [x[1] for x in s.stops] != [True]:
+            res.violations.append(Violation(ID, "c12:forced-close-in-callback:on_stop", str(s.stops)))
     if ce == "expected-disconnect":
         if [x[1] for x in s.stops] != [True]:
             res.violations.append(Violation(ID, "c12:disconnect-request:on_stop", str(s.stops)))
@@ -404,7 +419,9 @@ def _history(draw, tier):
             for _ in range(draw(st.integers(0, 3))):
                 at = draw(st.sampled_from([1, 1, 2, 3]))
                 a = draw(st.integers(0, 2))
-                if a == 0:
+                if draw(st.integers(0, 11)) == 5:
+                    script.append({"at": at, "do": "close"})
+                elif a == 0:
                     script.append({"at": at, "do": "unsub_self"})
                 elif a == 1 and ids:
                     script.append({"at": at, "do": ["unsub", draw(st.sampled_from(ids))]})
@@ -413,7 +430,11 @@ def _history(draw, tier):
             # at most one action per invocation index keeps the script unambiguous
             seen = set()
             script = [a for a in script if not (a["at"] in seen or seen.add(a["at"]))]
-            ops.append({"op": "sub", "id": cid, "types": sorted(set(draw(st.lists(st.sampled_from(TYPES6), min_size=1, max_size=3)))), "script": script})
+            types = sorted(set(draw(st.lists(st.sampled_from(TYPES6), min_size=1, max_size=3))))
+            if not any(a["do"] == "close" for a in script) and draw(st.integers(0, 5)) == 2:
+                # ... also a subscriber to one of the peer-request types next to the internal handler
+                types = sorted(set(types + [draw(st.sampled_from([5, 7, 36]))]))
+            ops.append({"op": "sub", "id": cid, "types": types, "script": script})
             ids.append(cid)
         elif r == 4 and draw(st.booleans()):
             ops.append({"op": "wait", "type": draw(st.sampled_from(TYPES6))})
@@ -477,6 +498,16 @@ def enumerated(tier):
     for t in (0, 124, 200, 65535):
         yield {"kind": "types", "noise": t != 200, "frames": [[t, {"hex": "08011001"}], [26, {"key": 1, "state": True}], [t, {"hex": "ffff"}]]}
         yield {"kind": "silent", "K": 2.0, "noise": False, "frames": [[o, t] for o in (33, 129, 257, 385, 513, 641)]}
+    # one of several subscribers closes the connection from inside its callback; subscribers next to the internal
+    # handlers of the peer-request types
+    for noise in (False, True):
+        for n in (2, 3, 5):
+            subs = [{"op": "sub", "id": f"c{k}", "types": [26], "script": [{"at": 1, "do": "close"}] if k == 0 else []} for k in range(n)]
+            yield {"kind": "history", "noise": noise, "ops": subs + [{"op": "msg", "type": 26, "payload": {"key": 1}, "merge": True}, {"op": "msg", "type": 26, "payload": {"key": 2}}]}
+            yield {"kind": "history", "noise": noise, "ops": list(reversed(subs)) + [{"op": "wait", "type": 26}, {"op": "msg", "type": 26, "payload": {"key": 1}}]}
+        for what, tid in (("ping", 7), ("gettime", 36), ("discreq", 5)):
+            subs = [{"op": "sub", "id": f"c{k}", "types": [tid, 26], "script": []} for k in range(3)]
+            yield {"kind": "history", "noise": noise, "ops": subs + [{"op": "peer", "what": what}, {"op": "msg", "type": 26, "payload": {"key": 2}}]}
     # two request/response waiters and a plain subscriber on one type, answers coalesced in one chunk
     for noise in (False, True):
         for n in (2, 3):
